@@ -153,6 +153,15 @@ def hasLayoutTrap (s : String) : Bool :=
     | "R" :: _ :: kind :: len :: _ => kind == "TrapBuffer" && len == "-"
     | _ => false
 
+/-- a function defined twice (same name, signature, scope): a front-end error outside the model -/
+def hasRedefinition : List Item → Bool
+  | [] => false
+  | .func f :: rest =>
+    (f.hasBody && rest.any (fun it => match it with
+      | .func g => g.hasBody && g.name == f.name && g.shape == f.shape
+      | .pipe _ => false)) || hasRedefinition rest
+  | .pipe _ :: rest => hasRedefinition rest
+
 def showTgs : Option (Nat × Nat × Nat) → String
   | none => "-"
   | some (x, y, z) => s!"{x},{y},{z}"
@@ -227,6 +236,7 @@ def handle (op : String) (args : List String) : String :=
     else
     match parseProgram (on == "on") prog with
     | some (items, bad) =>
+      if hasRedefinition items then "unsupported" else
       match typeCheck items, bad with
       | .ok _, some n => "err:decl@R:" ++ n
       | r, _ => showTyper r
@@ -240,6 +250,7 @@ def handle (op : String) (args : List String) : String :=
     else
     match parseMode mode, parseProgram (opts.startsWith "on") prog with
     | some m, some (items, bad) =>
+      if hasRedefinition items then "unsupported" else
       match typeCheck items with
       | .error (_, e) => if e.kind == .unsupported then "unsupported" else "err:front"
       | .ok s =>
